@@ -180,6 +180,8 @@ impl SamplingFutRaw {
 impl SamplingFuts {
     pub open spec fn view(&self) -> Seq<FutInfo> { self.g@ }
     #[verifier::external_body]
+    pub fn new() -> (r: SamplingFuts) ensures r@ == Seq::<FutInfo>::empty() { unimplemented!() }
+    #[verifier::external_body]
     pub fn len(&self) -> (n: usize) ensures n == self@.len() { unimplemented!() }
     #[verifier::external_body]
     pub fn push(&mut self, f: SamplingFut) ensures final(self)@ == old(self)@.push(f.info@) { unimplemented!() }
@@ -245,7 +247,16 @@ impl ShareFuts {
 }
 
 //@const PRUNER_THRESHOLD
+//@const MAX_SAMPLES_NEEDED
 
+pub struct DaserArgs {
+    pub p2p: P2p,
+    pub store: Store,
+    pub event_pub: EventPublisher,
+    pub sampling_window: Duration,
+    pub concurrency_limit: usize,
+    pub additional_headersub_concurrency: usize,
+}
 pub struct Worker {
     pub cmd_rx: CmdRx,
     pub cancellation_token: CancellationToken,
@@ -300,6 +311,23 @@ pub open spec fn limit_for(w: Worker, h: u64) -> int {
 pub open spec fn in_window(header_time: int, now: int, window: int) -> bool { now < header_time || now - header_time <= window }
 
 impl Worker {
+//@fn impl<S> Worker<S> :: new
+//@props C33 C34
+    fn new(args: DaserArgs, cancellation_token: CancellationToken, cmd_rx: CmdRx) -> (r: DResult<Worker>)
+        ensures
+            r.is_ok(),
+            // C33: at most 16 shares per block
+            r.unwrap().max_samples_needed == 16,
+            r.unwrap().wf(), r.unwrap().sampling_futs@.len() == 0,
+            r.unwrap().queue@ =~= ISet::<int>::empty() && r.unwrap().ongoing@ =~= ISet::<int>::empty()
+                && r.unwrap().timed_out@ =~= ISet::<int>::empty() && r.unwrap().will_be_pruned@ =~= ISet::<int>::empty(),
+            r.unwrap().concurrency_limit == args.concurrency_limit && r.unwrap().additional_headersub_concurency == args.additional_headersub_concurrency,
+            r.unwrap().sampling_window == args.sampling_window,
+//@sub E9 "FuturesUnordered::new()" => "SamplingFuts::new()"
+//@sub E9 "BlockRanges::default()" all => "BlockRanges::new()"
+//@sub E13 "num_of_prunable_blocks: 0," => "num_of_prunable_blocks: 0, known_stored: Ghost(ISet::empty()), known_sampled: Ghost(ISet::empty()), log: Ghost(Log { recorded: Map::empty(), marked: Set::empty() }),"
+//@end
+
 //@fn impl<S> Worker<S> :: on_want_to_prune
 //@props C34
 //@refarg remove_relaxed insert_relaxed
@@ -513,9 +541,15 @@ fn random_indexes(square_width: u16, max_samples_needed: usize) -> (r: ShareSet)
         assert(vstd::arithmetic::power::pow(w, 2) == w * w);
         assert(w * w <= 65535 * 65535) by(nonlinear_arith) requires 0 <= w <= 65535;
     }
+//@hint before "let mut indexes ="
+    proof {
+        let w = square_width as int;
+        if w == 0 { assert(w * w == 0); assert(samples_in_block == 0); }
+    }
 //@loop 1
         invariant
-            square_width > 0, indexes@.len() <= max_samples_needed,
+            max_samples_needed > 0 ==> square_width > 0, indexes@.len() <= max_samples_needed,
+            (square_width as int) * (square_width as int) >= max_samples_needed,
             forall|p: (u16, u16)| indexes@.contains(p) ==> p.0 < square_width && p.1 < square_width,
 //@hint after "indexes.insert((row, col));"
         proof { broadcast use vstd::set::group_set_lemmas; }
